@@ -70,13 +70,14 @@ pub fn build_step(
                 next
             ))),
         },
-        None => {
-            if !step.branches.is_empty() {
-                let mut branch_prev = node.clone();
-                for branch in step.branches.iter_mut() {
-                    build_branch(branch, tree, &node, &mut branch_prev, level + 1)?;
-                }
-            }
+        None => {}
+    }
+
+    // the branches belong to the step whether or not it names its successor
+    if !step.branches.is_empty() {
+        let mut branch_prev = node.clone();
+        for branch in step.branches.iter_mut() {
+            build_branch(branch, tree, &node, &mut branch_prev, level + 1)?;
         }
     }
 
